@@ -262,6 +262,9 @@ func init() {
 		},
 		"bytes.Join":        intrBytesJoin,
 		"bytes.NewBuffer":   intrBytesNewBuffer,
+		"bytes.NewBufferString": func(ex *Exec, fn *ssa.Function, a []Value, fr *Frame) Value {
+			return intrBytesNewBuffer(ex, fn, []Value{ex.sliceFromTerms(ex.strBytes(a[0].(*StringV)), types.Typ[types.Uint8])}, fr)
+		},
 		"(*bytes.Buffer).Next":  intrBufferNext,
 		"(*bytes.Buffer).Bytes": intrBufferBytes,
 		"(*bytes.Buffer).Len":   intrBufferLen,
@@ -283,6 +286,19 @@ func init() {
 			}
 			sv[1] = ex.i64(0)
 			return nil
+		},
+		// a request's context: a live background context (never cancelled, no deadline), implemented by the
+		// harness runtime's verifBackgroundCtx so that method calls on it run from SSA
+		"(*net/http.Request).Context": func(ex *Exec, fn *ssa.Function, a []Value, fr *Frame) Value {
+			for path, tp := range ex.ld.Types {
+				if !strings.HasPrefix(path, pikeMod) {
+					continue
+				}
+				if obj := tp.Scope().Lookup("verifBackgroundCtx"); obj != nil {
+					return &IfaceV{Typ: obj.Type(), Val: ex.zero(obj.Type())}
+				}
+			}
+			panic(unsupported("(*http.Request).Context: no harness runtime loaded"))
 		},
 		"net/http.CanonicalHeaderKey":            concStr1(textproto.CanonicalMIMEHeaderKey),
 		"net/textproto.CanonicalMIMEHeaderKey":   concStr1(textproto.CanonicalMIMEHeaderKey),
@@ -1744,6 +1760,9 @@ func intrSortSlice(ex *Exec, fn *ssa.Function, a []Value, fr *Frame) Value {
 			r := ex.invoke(less, []Value{ex.i64(int64(j)), ex.i64(int64(j - 1))}, fr).(*Term)
 			if !ex.branch(r) {
 				break
+			}
+			if s.Arr.Frozen {
+				ex.noteFrozenWrite(&Pointer{Obj: s.Arr})
 			}
 			arr[off+j], arr[off+j-1] = arr[off+j-1], arr[off+j]
 		}
